@@ -83,8 +83,14 @@ func genVis(t *rapid.T, from lib.RefLabel, depPkg string) []string {
 }
 
 func gen(t *rapid.T) visCase {
+	// experimental dirs come from a small fixed pool (a BuildState is expensive to construct and is cached per
+	// configuration); packages are then drawn in relation to them often enough that every relation occurs.
+	expDirs := append([]string{}, rapid.SampledFrom(expPool).Draw(t, "expdirs")...)
 	fromPkg := lib.GenPkg(t, "from", 3)
-	c := visCase{From: tgt{Pkg: fromPkg, Name: rapid.SampledFrom(fromNames).Draw(t, "fromname")}}
+	if len(expDirs) > 0 && rapid.IntRange(0, 2).Draw(t, "fromnearexp") == 0 {
+		fromPkg = lib.GenRelatedPkg(t, "fromexp", rapid.SampledFrom(expDirs).Draw(t, "fromexpdir"))
+	}
+	c := visCase{ExpDirs: expDirs, From: tgt{Pkg: fromPkg, Name: rapid.SampledFrom(fromNames).Draw(t, "fromname")}}
 	switch rapid.IntRange(0, 5).Draw(t, "fromkind") {
 	case 0:
 		c.From.Test = true
@@ -95,7 +101,11 @@ func gen(t *rapid.T) visCase {
 	nDeps := rapid.IntRange(1, 4).Draw(t, "ndeps")
 	seen := map[string]bool{from.String(): true}
 	for i := 0; i < nDeps; i++ {
-		d := tgt{Pkg: lib.GenRelatedPkg(t, "dep", fromPkg), Name: rapid.SampledFrom(depNames).Draw(t, "depname")}
+		depBase := fromPkg
+		if len(expDirs) > 0 && rapid.IntRange(0, 3).Draw(t, "depnearexp") == 0 {
+			depBase = rapid.SampledFrom(expDirs).Draw(t, "depexpdir")
+		}
+		d := tgt{Pkg: lib.GenRelatedPkg(t, "dep", depBase), Name: rapid.SampledFrom(depNames).Draw(t, "depname")}
 		key := lib.RefLabel{Pkg: d.Pkg, Name: d.Name}.String()
 		if seen[key] {
 			continue
@@ -106,9 +116,6 @@ func gen(t *rapid.T) visCase {
 		d.Test = rapid.IntRange(0, 9).Draw(t, "deptest") == 0
 		c.Deps = append(c.Deps, d)
 	}
-	// experimental dirs come from a small fixed pool (a BuildState is expensive to construct and is cached per
-	// configuration); the package alphabet is tight enough that every relation to the pool occurs often.
-	c.ExpDirs = append([]string{}, rapid.SampledFrom(expPool).Draw(t, "expdirs")...)
 	return c
 }
 
@@ -309,12 +316,18 @@ func run(c visCase, o *lib.Obs) error {
 	o.LabelIf(fromExp, "experimental_dependent")
 	o.LabelIf(anyBad, "expected_failure")
 	o.LabelIf(len(c.ExpDirs) > 0, "has_experimental_dirs")
+	var intoExp, toViol, toAllowed, invisible bool
 	for _, e := range edges {
-		o.LabelIf(refExperimental(c.ExpDirs, e.d.Pkg) && !fromExp, "into_experimental")
-		o.LabelIf(e.v.testOnlyBad, "test_only_violation")
-		o.LabelIf(e.d.TestOnly && !e.v.testOnlyBad && !e.v.testOnlyUnset, "test_only_allowed")
-		o.LabelIf(!e.v.visible, "invisible_edge")
+		intoExp = intoExp || (refExperimental(c.ExpDirs, e.d.Pkg) && !fromExp)
+		toViol = toViol || e.v.testOnlyBad
+		toAllowed = toAllowed || (e.d.TestOnly && !e.v.testOnlyBad && !e.v.testOnlyUnset)
+		invisible = invisible || !e.v.visible
 	}
+	o.LabelIf(intoExp, "into_experimental")
+	o.LabelIf(toViol, "test_only_violation")
+	o.LabelIf(toAllowed, "test_only_allowed")
+	o.LabelIf(invisible, "invisible_edge")
+	o.LabelIf(anyUnset, "test_only_experimental_unasserted")
 
 	for _, e := range edges {
 		if got := from.CanSee(state, e.dep); got != e.v.visible {
